@@ -13,7 +13,10 @@ vars == <<w, src, edits, loaded>>
 
 Base == [port |-> 8686, batch_size |-> Absent, fault_percentage |-> Absent, num_workers |-> Absent,
          status_interval |-> Absent, health_check_port |-> Absent, seed |-> "ok", interface |-> "ok",
-         client_stats |-> "absent", persistence_directory |-> "absent", unknown_key |-> FALSE, multidoc |-> FALSE]
+         client_stats |-> "absent", persistence_directory |-> "absent", unknown_key |-> FALSE, multidoc |-> FALSE,
+         \* how the file is presented (no effect on what is Allowed): a comment block of more than 4 KiB behind the first setting;
+         \* a file NAMED like the word that selects the environment source, in another letter case
+         longfile |-> FALSE, envname |-> FALSE]
 
 Init == w = Base /\ src \in {"file", "env"} /\ edits = 0 /\ loaded = FALSE
 
@@ -25,6 +28,8 @@ EditOther == \/ \E s \in {"short", "long", "nonhex", "missing", "odd", "digits",
              \/ (w.persistence_directory = "absent" /\ w' = [w EXCEPT !.persistence_directory = "dir"])
              \/ (src = "file" /\ ~w.unknown_key /\ w' = [w EXCEPT !.unknown_key = TRUE])
              \/ (src = "file" /\ ~w.multidoc /\ w' = [w EXCEPT !.multidoc = TRUE])
+             \/ (src = "file" /\ ~w.longfile /\ w' = [w EXCEPT !.longfile = TRUE])
+             \/ (src = "file" /\ ~w.envname /\ w' = [w EXCEPT !.envname = TRUE])
 
 Edit == /\ ~loaded /\ edits < MaxEdits /\ (EditInt \/ EditOther)
         /\ edits' = edits + 1 /\ UNCHANGED <<src, loaded>>
